@@ -257,6 +257,9 @@ func wordString(w []*Event) string {
 		if e.Op == "index" {
 			continue // bookkeeping for the path-sensitive bounds proof
 		}
+		if trivialNilTest(e) {
+			continue
+		}
 		parts = append(parts, e.String())
 	}
 	return strings.Join(parts, " ; ")
@@ -303,4 +306,17 @@ func (g *Graph) SimplePaths(limit int) [][]*Event {
 	}
 	walk(g.Start, nil)
 	return out
+}
+
+// trivialNilTest: a nil test of a value made on this very path (a fresh error, a fresh object) can only answer
+// "non-nil": a helper handing such a value to its caller, which then tests it, adds nothing to the behaviour.
+func trivialNilTest(e *Event) bool {
+	if e.Op != "niltest" || e.Out != "nonnil" || len(e.Args) == 0 {
+		return false
+	}
+	a := e.Args[0]
+	if strings.HasPrefix(a, "Errorf(") || strings.HasPrefix(a, "New(") {
+		return true
+	}
+	return strings.HasPrefix(a, "obj") && !strings.ContainsAny(a, ".[")
 }
